@@ -29,7 +29,7 @@ PROP_INVS = ["CqeOnce", "SyncLower", "Delivers", "NotEarly", "SyncUpper", "Reada
              "CancelPairs", "EffectOk", "PushFull", "DeadRingSilent", "BufferUntouched"]
 
 ALL_KINDS = {"read", "write", "fsync", "cancel"}
-ALL_CTL = {"dropring", "close", "open", "shimw", "crash"}
+ALL_CTL = {"dropring", "close", "open", "shimw", "crash"}    # (+ "submitbad": the failing submit_with_args entry point)
 
 
 def consts(**kw):
@@ -46,7 +46,7 @@ def mc_configs(tier):
         # every kind, unsupported flags, full SQ (entries 1), two latencies sampled per entry
         ("mc_core2", consts(Entries={1, 2}, BadFlags={False, True}, LatChoices={0, 2}, MaxOps=2, MaxTicks=2)),
         # crash between submit and completion, fsync durability
-        ("mc_crash2", consts(Entries={2}, Kinds={"write", "fsync", "cancel"}, LatChoices={1}, CtlOps={"crash"},
+        ("mc_crash2", consts(Entries={2}, Kinds={"write", "fsync", "cancel"}, LatChoices={1}, CtlOps={"crash", "submitbad"},
                              MaxOps=2, MaxTicks=2, MaxCrash=1)),
         # closed / re-opened handles between submit and completion
         ("mc_close2", consts(Entries={2}, Kinds={"write", "read", "fsync"}, LatChoices={1}, CtlOps={"close", "open"},
@@ -82,7 +82,7 @@ def gen_configs(tier):
     cfgs = [
         ("gen_core", consts(Entries={2}, Kinds={"read", "write", "cancel"}, LatChoices={1}, MaxOps=3, MaxTicks=2,
                             GenLen=7 if q else 8), 1),
-        ("gen_ctl", consts(Entries={1}, Kinds={"write", "fsync", "cancel"}, LatChoices={1}, CtlOps={"crash", "close", "dropring"},
+        ("gen_ctl", consts(Entries={1}, Kinds={"write", "fsync", "cancel"}, LatChoices={1}, CtlOps={"crash", "close", "dropring", "submitbad"},
                            BadFlags={False, True}, MaxOps=2, MaxTicks=2, MaxCrash=1, GenLen=6 if q else 7), 1),
     ]
     cfgs += [
@@ -153,6 +153,34 @@ def validate_trace(path, tag, impl_consts=None):
     return pr, ir
 
 
+def validate_prop_many(items, tag):
+    """items: [(label, path)].  One PropTrace run over the concatenation (every run starts with a reset event); only
+    if that is rejected, one run per item to find out which.  Returns (merged_result, {label: rejected_result})."""
+    w = vlib.workdir(tag + "_cat")
+    cat = os.path.join(w, "all.ndjson")
+    with open(cat, "w") as out:
+        for _, pth in items:
+            with open(pth) as f:
+                out.write(f.read())
+    pr, _ = validate_trace(cat, tag + "_all")
+    bad = {}
+    if rejected(pr):
+        for label, pth in items:
+            r1, _ = validate_trace(pth, tag + "_one")
+            if rejected(r1):
+                bad[label] = r1
+    return pr, bad
+
+
+def validate_impl(path, tag, impl_consts):
+    env = {"TRACE": os.path.abspath(path)}
+    icfg = vlib.cfg_text("TSpec", impl_consts, invariants=PROP_INVS + ["ImplInv"], postcondition="Accepted")
+    ir = vlib.run_tlc(SUB, "UringTrace", icfg, tag + "_impl", workers=1, env=env, dfs=True, heap="3g", timeout=900)
+    if ir.error or ir.timed_out:
+        raise MachineryError(f"trace validation (impl) failed: {ir.error or 'timeout'}")
+    return ir
+
+
 def drive(ck, args, timeout=420):
     """Run the driver. A driver that hangs or dies (the code under test may spin, e.g. an AsyncFd::readable loop
     that never becomes ready) is a machinery error - unless violations were already reported, which take priority."""
@@ -180,13 +208,13 @@ def count_lines(path):
 
 FEATURES = ["cancel_hit", "cancel_miss", "full_push", "late_pop", "partial_drain", "lat_wait", "crash_lost",
             "exit_crash_lost", "ebadf", "einval", "dup_cancel", "dup_both_complete", "append_write",
-            "ro_fsync"]
+            "ro_fsync", "parked_wake", "parked_cancel_only_wake", "badargs_nonempty_sq", "submit_entry_points"]
 
 
 def features_of(path, acc):
     """Vacuity bookkeeping on recorded executions of the real code (counts only, no verdict)."""
     ops, sub_at, now, vis, alive_ops, exited = {}, {}, 0, {}, set(), False
-    fmode, run_cqes = {}, []
+    fmode, run_cqes, parked = {}, [], {}
     for line in open(path):
         e = json.loads(line)
         ev = e["ev"]
@@ -194,7 +222,7 @@ def features_of(path, acc):
             exited = True      # the host software returned by itself; its handles are parked outside the task
         if ev == "reset":
             ops, sub_at, now, vis, alive_ops, exited = {}, {}, 0, {}, set(), False
-            fmode, run_cqes = {}, []
+            fmode, run_cqes, parked = {}, [], {}
         elif ev == "tick":
             now = e["now"]
         elif ev == "push":
@@ -203,7 +231,20 @@ def features_of(path, acc):
                 acc["full_push"] += 1
         elif ev == "open":
             fmode[e["f"]] = e.get("mode", "rw")
+        elif ev == "note" and e.get("what") == "park":
+            parked[e["r"]] = None          # a reactor task is parked in AsyncFd::readable() on this ring
+        elif ev == "readable" and e.get("parked"):
+            if e["ok"]:
+                acc["parked_wake"] += 1
+                if parked.get(e["r"]) == "cancel_only":
+                    acc["parked_cancel_only_wake"] += 1   # woken by a batch of AsyncCancels that found nothing
+            parked.pop(e["r"], None)
+        elif ev == "submit" and not e["ok"]:
+            if e.get("via") == "badargs" and any(o["r"] == e["r"] and o["ok"] and u not in sub_at for u, o in ops.items()):
+                acc["badargs_nonempty_sq"] += 1   # submit_with_args rejected while entries were queued
         elif ev == "submit" and e["ok"]:
+            if e.get("via") in ("wait", "args"):
+                acc["submit_entry_points"] += 1
             earlier = []
             for u in sorted(ops):
                 o = ops[u]
@@ -214,6 +255,8 @@ def features_of(path, acc):
                         if len(cands) >= 2:
                             acc["dup_cancel"] += 1     # a cancel aimed at a user_data that >= 2 outstanding entries carry
                     earlier.append(u)
+            if e["r"] in parked and earlier and parked[e["r"]] is None:
+                parked[e["r"]] = "cancel_only" if all(ops[u]["kind"] == "cancel" for u in earlier) else "mixed"
             for u in earlier:
                 sub_at[u] = now
                 alive_ops.add(u)
@@ -289,7 +332,7 @@ def run(pid, tier, seed, replay=None):
         need = (["PushDup"] if c["AllowDup"] else []) + ["NewRing"] + [{"read": "PushRead", "write": "PushWrite", "fsync": "PushFsync", "cancel": "PushCancel"}[k]
                               for k in sorted(c["Kinds"])] + ["SubmitMC", "SyncMC", "PopSome", "PopNoneMC", "TickNow", "End"]
         for op, act in (("dropring", "DropRingMC"), ("close", "CloseMC"), ("open", "OpenMC"), ("shimw", "ShimWriteMC"),
-                        ("crash", "CrashMC")):
+                        ("crash", "CrashMC"), ("submitbad", "SubmitBadMC")):
             if op in c["CtlOps"]:
                 need.append(act)
         missing = [a for a in need if r.coverage and r.coverage.get(a, 0) == 0]
@@ -308,6 +351,7 @@ def run(pid, tier, seed, replay=None):
         ck.extra["model_witnesses_reachable"] = True
 
     # 2. spec -> code -------------------------------------------------------
+    samples = []
     for name, c, lat in gen_configs(tier):
         cfg = vlib.cfg_text("GenSpec", c, invariants=["Emit"] + PROP_INVS)
         r = vlib.run_tlc(SUB, "UringGen", cfg, f"{pid}_{name}", workers=10, timeout=1500, heap="12g")
@@ -343,17 +387,36 @@ def run(pid, tier, seed, replay=None):
         ck.impl_drift += s["divergent"]
         if s["realised"] == 0:
             raise MachineryError(f"no behaviour of {name} could be realised on the code")
-        # the sampled traces go through both trace specs
+        # the sampled traces go through both trace specs (the PropSpec pass is done for all configs at once below)
         sp = os.path.join(tdir, "sample.ndjson")
         features_of(sp, feats)
-        rc = dict(tick=c["Tick"], latlo=lat, lathi=lat, nf=c["NF"], initlen=c["InitLen"])
-        pr, ir = validate_trace(sp, f"{pid}_{name}_smp", trace_consts(rc))
-        ck.add_tlc(pr, f"trace_prop_{name}")
-        ck.add_tlc(ir, f"trace_impl_{name}")
-        if rejected(pr):
+        samples.append([name, sp, c, lat, bpath, None])
+    # fidelity pass: one UringTrace run per group of configs with the same (Tick, NF, InitLen); the latency of each
+    # entry is inferred from the union of the groups' latencies
+    groups = {}
+    for smp in samples:
+        c = smp[2]
+        groups.setdefault((c["Tick"], c["NF"], c["InitLen"]), []).append(smp)
+    for (tk, nf, il), members in groups.items():
+        cat = os.path.join(w, f"samples_{tk}_{nf}_{il}.ndjson")
+        with open(cat, "w") as out:
+            for m in members:
+                out.write(open(m[1]).read())
+        tc = trace_consts(dict(tick=tk, latlo=0, lathi=0, nf=nf, initlen=il))
+        tc["LatChoices"] = {m[3] for m in members}
+        ir = validate_impl(cat, f"{pid}_smp_{tk}_{nf}_{il}", tc)
+        ck.add_tlc(ir, f"trace_impl_samples_{tk}_{nf}_{il}")
+        if rejected(ir):       # find out which config
+            for m in members:
+                m[5] = validate_impl(m[1], f"{pid}_smp_one", trace_consts(dict(tick=tk, latlo=m[3], lathi=m[3], nf=nf, initlen=il)))
+    pr, bad = validate_prop_many([(smp[0], smp[1]) for smp in samples], f"{pid}_smp")
+    ck.add_tlc(pr, "trace_prop_samples")
+    for name, sp, c, lat, bpath, ir in samples:
+        if name in bad:
+            b = bad[name]
             ck.violation({"kind": "sample", "property": pid, "config": name, "consts": jsonable(c), "lat": lat,
-                          "behaviours": bpath, "violated_clause": pr.violated, "unmatched": pr.unmatched,
-                          "tlc": vlib.counterexample_text(pr, 3000)})
+                          "behaviours": bpath, "violated_clause": b.violated, "unmatched": b.unmatched,
+                          "tlc": vlib.counterexample_text(b, 3000)})
         elif rejected(ir):
             ck.impl_drift += 1
             log(f"[{pid}] note: sampled replay traces of {name} left the ImplSpec at {ir.unmatched} ({ir.violated}); "
@@ -363,7 +426,7 @@ def run(pid, tier, seed, replay=None):
     run_corpus(ck, w)
 
     # 3. code -> spec -------------------------------------------------------
-    first = True
+    runs = []
     for i, rc in enumerate(random_configs(tier, seed)):
         tpath = os.path.join(w, f"random_{i}.ndjson")
         args = ["random"] + [f"{k}={v}" for k, v in rc.items() if k != "impl"]
@@ -371,21 +434,25 @@ def run(pid, tier, seed, replay=None):
         if out is None:
             continue
         features_of(tpath, feats)
-        pr, ir = validate_trace(tpath, f"{pid}_rnd{i}", trace_consts(rc) if rc["impl"] else None)
-        ck.add_tlc(pr, f"trace_prop_{i}")
+        ir = validate_impl(tpath, f"{pid}_rnd{i}", trace_consts(rc)) if rc["impl"] else None
         if ir:
             ck.add_tlc(ir, f"trace_impl_{i}")
         ck.traces += rc["runs"]
         ck.evaluations += rc["runs"]
         ck.nontrivial += rc["runs"]
-        log(f"[{pid}] random {rc}: {out.strip()} -> prop {'ok' if not rejected(pr) else 'REJECTED'}, "
-            f"impl {'-' if ir is None else 'ok' if not rejected(ir) else 'drift'}")
-        if first:
+        runs.append((i, rc, tpath, args, out, ir))
+        if i == 0:
             with open(tpath) as f:
                 ck.sample({"kind": "recorded trace excerpt", "config": rc,
                            "events": [json.loads(x) for _, x in zip(range(16), f)]})
-            first = False
-        if rejected(pr):
+    if runs:
+        pr_all, bad = validate_prop_many([(i, t) for i, _, t, *_ in runs], f"{pid}_rnd")   # one PropTrace pass for all
+        ck.add_tlc(pr_all, "trace_prop_random")
+    for i, rc, tpath, args, out, ir in runs:
+        pr = bad.get(i)
+        log(f"[{pid}] random {rc}: {out.strip()} -> prop {'ok' if pr is None else 'REJECTED'}, "
+            f"impl {'-' if ir is None else 'ok' if not rejected(ir) else 'drift'}")
+        if pr is not None:
             ck.violation({"kind": "random", "property": pid, "args": args, "cfg": rc,
                           "violated_clause": pr.violated, "unmatched": pr.unmatched,
                           "tlc": vlib.counterexample_text(pr, 3000)})
@@ -409,7 +476,8 @@ def run(pid, tier, seed, replay=None):
     src = os.path.join(w, "random_0.ndjson")
     rc0 = random_configs(tier, seed)[0]
     demos = []
-    for kind in ("dup_cqe", "wrong_res", "early"):
+    kinds = ("dup_cqe", "wrong_res", "early")
+    for kind in (kinds if tier == "thorough" else kinds[seed % 3:seed % 3 + 1]):     # quick: one of them, by seed
         bad = os.path.join(w, f"random_0_{kind}.ndjson")
         if corrupt_trace(src, bad, kind):
             pr, ir = validate_trace(bad, f"{pid}_bind_{kind}", trace_consts(rc0))
@@ -462,6 +530,7 @@ def run_corpus(ck, w):
     pid = ck.pid
     cdir = os.path.join(vlib.ROOT, "corpus")
     known = {f.get("id"): f for f in ck.findings.get("findings", []) if f.get("property") == pid}
+    items, meta = [], {}
     for cf in sorted(os.listdir(cdir)):
         if not cf.startswith(pid + "-"):
             continue
@@ -473,13 +542,19 @@ def run_corpus(ck, w):
             out = drive(ck, rp["args"] + [f"out={tpath}"])
         if out is None:
             continue
-        pr, _ = validate_trace(tpath, f"{pid}_corpus")
-        ck.add_tlc(pr, "trace_corpus")
+        items.append((cf, tpath))
+        meta[cf] = rp
         ck.traces += rp.get("runs", 1)
-        rej = rejected(pr)
-        log(f"[{pid}] corpus {cf}: {'ok' if not rej else 'REJECTED ' + str(pr.violated or 'unmatched')}")
-        if not rej:
+    if not items:
+        return
+    pr_all, bad = validate_prop_many(items, f"{pid}_corpus")      # one PropTrace pass; per witness only on rejection
+    ck.add_tlc(pr_all, "trace_corpus")
+    for cf, tpath in items:
+        pr = bad.get(cf)
+        log(f"[{pid}] corpus {cf}: {'ok' if pr is None else 'REJECTED ' + str(pr.violated or 'unmatched')}")
+        if pr is None:
             continue
+        rp = meta[cf]
         fid = rp.get("finding")
         f = known.get(fid)
         if f and pr.violated in f.get("clauses", []) and family_matches(f, tpath, pr):
